@@ -18,8 +18,10 @@ CHECKS = {
              "self-closing style), expand_markup succeeds and its tag chunks nest to exactly the denoted (depth, name) list: every "
              "written element once per repetition, in document order, with its own name. Built from: tokenizer step lemmas, parser "
              "spine invariant (flat and groups), converter unrolling spec, snippet/transform identity on plain names, format_events. "
-             "Implicit-name decision rule proved over the table regenerated from the source (composition for nameless elements: "
-             "correspondence + oracle). Whole-pipeline model/implementation correspondence and an independent denotation oracle "
+             "Implicit names end to end (props/C01Implicit.v): for statements whose units are name | name.cls | name#id | .cls | #id "
+             "(groups, *N), a nameless element receives the documented implicit name of its parent in the denoted tree (table-free "
+             "rule proved equal to the lookup over the regenerated ELEMENT_MAP / inline list) and carries its class/id attribute. "
+             "Whole-pipeline model/implementation correspondence and an independent denotation oracle "
              "on expand() output cover attributes, snippets, wrap text and the remaining configurations.",
         technique="Coq proof: end-to-end composition (tokenizer, parser spine by mutual induction over statements and groups, converter unrolling, resolve/transform identity, formatter tag events) + generated ELEMENT_MAP table + whole-pipeline model/implementation correspondence and denotation oracle",
         ref="DESIGN.md §5 C01, §10"),
@@ -124,7 +126,10 @@ CHECKS = {
              "and for every reachable stream every callback event sits at exactly the offset, line and column it reports in the final "
              "string (callback_positions_exact; any newline string: relative to the stream's own line ends); tabstops_in_order for "
              "trees without explicit fields (HTML and haml/pug/slim), explicit fields keep relative order and are disjoint across values, "
-             "field counter monotone. Stylesheet formatter: covered by the stream theorem and the oracle. Oracle checks every callback "
+             "field counter monotone. Stylesheet formatter (props/C13Css.v, stream model beside the string model with os_value = stringify "
+             "proved): its stream is reachable, every callback position exact for every abbreviation and configuration, field callbacks "
+             "are the resolved tokens in document order with their own indices (stylesheet indices may repeat across properties, as "
+             "the code, its tests and upstream do: the numbering clause speaks about markup output). Oracle checks every callback "
              "invocation against the final string (markup and stylesheet syntaxes, \n / \r\n / custom newlines, indent, baseIndent).",
         technique="Coq proof of a stream-position invariant over all operation sequences + reachability of formatter streams by induction over the tree + callback-event correspondence and position oracle",
         ref="DESIGN.md §5 C13"),
